@@ -112,6 +112,16 @@ fn sqrt_estimate(hash: u64) -> (e: u64)
 '''
 
 POSTAMBLE = r'''
+// composition over the two contracts above (hand-written two-line harness, NOT repository code):
+// to_ring(from_ring(r)) == r for every depth and every RING index r. With to_ring's range contract this makes from_ring
+// injective on the finite set [0, 12 nside^2), hence both maps bijections and mutually inverse.
+fn ring_round_trip(s: &Layer, r: u64) -> (out: u64)
+  requires wf(*s), r < s.n_hash,
+  ensures out == r,
+{
+  let h = s.from_ring(r);
+  s.to_ring(h)
+}
 // @CANARY
 } // verus!
 fn main() {}
@@ -120,13 +130,15 @@ fn main() {}
 CANARY = r'''
 fn canary(s: &Layer, hash: u64) requires wf(*s), hash < s.n_hash {
   let r = s.to_ring(hash);
-  assert(r == 0); // CANARY must fail
+  let h = s.from_ring(hash);
+  assert(r == 0 || h == 0); // CANARY must fail
 }
 '''
 
 DROPPED = [
-    "struct Layer reduced to the fields read by the extracted functions (depth, nside, n_hash); wf() states their relation as established by Layer::new (assumed here; Layer::new is exercised by every Kani unit)",
+    "struct Layer reduced to the fields read by the extracted functions (depth, nside, n_hash, nside_remainder_mask; wf(): nside_remainder_mask == nside - 1); wf() states their relation as established by Layer::new (assumed here; Layer::new is exercised by every Kani unit)",
     "Layer::decode_hash not extracted: external_body with the assumed contract d0h < 12, i < nside, j < nside",
+    "Layer::build_hash_from_parts not extracted: external_body with the assumed contract 'result < n_hash and decode_hash(result) == (d0h, i, j)' for valid parts (the codec inverse; Kani proves the per-class codec contract in C04/C18)",
     "attributes and doc comments above the signatures are not copied (#[inline])",
 ]
 
@@ -237,6 +249,113 @@ FUNCTIONS = [
              "  let m: i8 = ((i as i8) + (km1 >> 7)) as i8;",
              "  assert(m & 3_i8 == (if m == -1i8 { 3i8 } else if m == 4i8 { 0i8 } else { m })) by (bit_vector) requires -1 <= m <= 4;",
              "}"])]),
+    dict(name="Layer::from_ring", file="src/nested/mod.rs", sig="pub fn from_ring(&self, hash: u64) -> u64 {", ret="r", drop_pub=True, wrap=("impl Layer {", "}"),
+         contract=["requires wf(*self), hash < self.n_hash,",
+                   "ensures r < self.n_hash, ({ let p = decode_spec(*self, r); let n = pow2(self.depth as nat) as int;",
+                   "   p.d0h < 12 && p.i < self.nside && p.j < self.nside && ring_index(n, p.d0h as int, p.i as int, p.j as int) == hash as int }),"],
+         ghost=[
+             dict(at="start", lines=[
+                 "proof { lemma_n(self.depth as nat); }",
+                 "let ghost n = pow2(self.depth as nat) as int;",
+                 "let ghost hash0 = hash as int;",
+                 "assert(self.nside as int == n && self.n_hash as int == 12 * n * n);",
+                 "assert(tri4(n) == 2 * n * n + 2 * n && 2 * tri4(n) <= 12 * n * n && 12 * n * n <= 12 * 0x2000_0000 * 0x2000_0000) by (nonlinear_arith) requires 1 <= n <= 0x2000_0000;",
+                 "assert(forall|x: u64| x <= 0x4000_0000_0000_0000u64 ==> #[trigger] (x << 1) == x * 2) by (bit_vector);",
+                 "assert(forall|x: i64| #[trigger] (x >> 1) * 2 <= x && x <= (x >> 1) * 2 + 1) by (bit_vector);",
+                 "assert(forall|x: u64| #[trigger] (x & 1) == x % 2) by (bit_vector);",
+                 "assert(forall|x: u64| x <= 0x1000_0000_0000_0000u64 ==> #[trigger] (x << 2) == x * 4) by (bit_vector);",
+                 "assert(forall|x: i64| 0 <= x <= 0x1000_0000_0000_0000i64 ==> #[trigger] (x << 2) == x * 4) by (bit_vector);",
+                 "assert(forall|x: u64| #[trigger] (x >> 1) == x / 2) by (bit_vector);",
+                 "let ghost sh = (self.depth + 2) as u64;",
+                 "assert(pow2(sh as nat) == 4 * n);",
+                 "assert forall|x: u64| #[trigger] (x >> sh) == x as nat / pow2(sh as nat) by { lemma_u64_shr_is_div(x, sh); }",
+                 "assert forall|x: u64| x * pow2(sh as nat) <= u64::MAX implies #[trigger] (x << sh) == x * pow2(sh as nat) by { lemma_u64_shl_is_mul(x, sh); }",
+                 "assert forall|a: int, b: int| 0 <= a && 0 < b implies b * (#[trigger] (a / b)) <= a && a < b * (a / b) + b && (a < 4 * b ==> a / b <= 3) && a / b >= 0 by {",
+                 "  lemma_fundamental_div_mod(a, b); lemma_mod_bound(a, b);",
+                 "  assert(a < 4 * b && b * (a / b) <= a ==> a / b <= 3) by (nonlinear_arith) requires b > 0;",
+                 "  assert(a / b >= 0) by (nonlinear_arith) requires a < b * (a / b) + b, b > 0, a >= 0;",
+                 "}"]),
+             dict(before="self.build_hash_from_parts (", nth=0, of=3, lines=[
+                 "proof {",
+                 "  let r0 = i_ring as int; let a = i_in_ring as int; let q = d0h as int; let rem = a - (r0 + 1) * q;",
+                 "  assert(r0 < n) by (nonlinear_arith) requires 2 * r0 * (r0 + 1) <= hash0, hash0 < 2 * n * (n + 1), r0 >= 0, n >= 1;",
+                 "  assert(tri4(r0 + 1) == tri4(r0) + 4 * (r0 + 1)) by (nonlinear_arith);",
+                 "  assert(0 <= q <= 3 && 0 <= rem <= r0);",
+                 "  assert(h as int == 2 * n - 2 - r0 && l as int == 2 * rem - r0);",
+                 "  let ii = ((h + l) as i64 >> 1) as int; let jj = ((h - l) as i64 >> 1) as int;",
+                 "  assert(ii == n - 1 - r0 + rem && jj == n - 1 - rem);",
+                 "  assert(q / 4 == 0 && q % 4 == q);",
+                 "  assert(ring_of(n, q, ii, jj) == r0) by (nonlinear_arith) requires q / 4 == 0, ii + jj == 2 * n - 2 - r0, ring_of(n, q, ii, jj) == n * (q / 4 + 2) - (ii + jj + 2);",
+                 "  assert(ring_first(n, r0) == tri4(r0));",
+                 "  assert(rank_in_ring(n, q, ii, jj) == (r0 + 1) * q + rem);",
+                 "  assert(ring_index(n, q, ii, jj) == hash0);",
+                 "}"]),
+             dict(before="let n_in_ring = i_ring + 1;", lines=[
+                 "assert(tri4(i_ring as int + 1) == tri4(i_ring as int) + 4 * (i_ring as int + 1)) by (nonlinear_arith);"]),
+             dict(before="// Substract number of hash in previous rings (-= n_rings * 4*nside)", lines=[
+                 "proof {",
+                 "  let z = hash0 - first_hash_in_eqr as int;",
+                 "  lemma_fundamental_div_mod(z, 4 * n); lemma_mod_bound(z, 4 * n);",
+                 "  assert(i_ring as int == z / (4 * n));",
+                 "  assert(i_ring as int <= 2 * n - 2) by (nonlinear_arith) requires (4 * n) * (i_ring as int) <= z, z < 12 * n * n - 2 * (2 * n * n + 2 * n), n >= 1;",
+                 "  assert(i_ring * pow2(sh as nat) <= z) by (nonlinear_arith) requires (4 * n) * (i_ring as int) <= z, pow2(sh as nat) == 4 * n;",
+                 "}"]),
+             dict(before="self.build_hash_from_parts (", nth=1, of=3, lines=[
+                 "proof {",
+                 "  let hp = hash as int;",
+                 "  assert(hp == 12 * n * n - 1 - hash0);",
+                 "  let r0 = i_ring as int; let a = i_in_ring as int; let q = d0h as int; let rem = a - (r0 + 1) * q;",
+                 "  assert(r0 < n) by (nonlinear_arith) requires 2 * r0 * (r0 + 1) <= hp, hp < 2 * n * (n + 1), r0 >= 0, n >= 1;",
+                 "  assert(tri4(r0 + 1) == tri4(r0) + 4 * (r0 + 1)) by (nonlinear_arith);",
+                 "  assert(0 <= q <= 3 && 0 <= rem <= r0);",
+                 "  assert(h as int == r0 && l as int == 2 * rem - r0);",
+                 "  let ii = ((h + l) as i64 >> 1) as int; let jj = ((h - l) as i64 >> 1) as int;",
+                 "  assert(ii == rem && jj == r0 - rem);",
+                 "  let dd = q + 8;",
+                 "  assert(dd / 4 == 2 && dd % 4 == q);",
+                 "  assert(ring_of(n, dd, ii, jj) == 4 * n - 2 - r0) by (nonlinear_arith) requires dd / 4 == 2, ii + jj == r0, ring_of(n, dd, ii, jj) == n * (dd / 4 + 2) - (ii + jj + 2);",
+                 "  let rg = 4 * n - 2 - r0;",
+                 "  assert(rg >= 3 * n - 1);",
+                 "  assert(ring_first(n, rg) == 12 * n * n - tri4(r0 + 1)) by (nonlinear_arith) requires ring_first(n, rg) == 12 * n * n - 2 * (4 * n - 1 - rg) * (4 * n - rg), rg == 4 * n - 2 - r0;",
+                 "  assert(rank_in_ring(n, dd, ii, jj) == (r0 + 1) * q + rem);",
+                 "  assert(ring_index(n, dd, ii, jj) == hash0);",
+                 "}"]),
+             dict(before="self.build_hash_from_parts (", nth=2, of=3, lines=[
+                 "proof {",
+                 "  let f = first_hash_in_eqr as int; let rp = i_ring as int; let a = i_in_ring as int; let z = hash0 - f;",
+                 "  assert(rp == z / (4 * n) && a == z - rp * (4 * n));",
+                 "  assert(0 <= a < 4 * n);",
+                 "  assert(rp <= 2 * n - 2) by (nonlinear_arith) requires (4 * n) * rp <= z, z < 12 * n * n - 2 * (2 * n * n + 2 * n), n >= 1;",
+                 "  assert(l as int == 2 * a + rp % 2 && h as int == 2 * n - 2 - rp);",
+                 "  let bi = i_in_d0c as int; let bj = j_in_d0c as int;",
+                 "  assert((h as int + l as int) % 2 == 0);",
+                 "  assert(bi == (h as int + l as int) / 2 && bj == (h as int - l as int) / 2 + 4 * n && bi + bj == h as int + 4 * n);",
+                 "  assert(0 <= bi && bi < 5 * n && 0 <= bj && bj < 5 * n);",
+                 "  let ca = bi / n; let cb = bj / n; let i = bi - n * ca; let j = bj - n * cb;",
+                 "  lemma_fundamental_div_mod(bi, n); lemma_fundamental_div_mod(bj, n); lemma_mod_bound(bi, n); lemma_mod_bound(bj, n);",
+                 "  assert(i == bi % n && j == bj % n && 0 <= i < n && 0 <= j < n);",
+                 "  assert(0 <= ca <= 4 && 0 <= cb <= 4) by (nonlinear_arith) requires n * ca <= bi, bi < 5 * n, n * cb <= bj, bj < 5 * n, ca >= 0, cb >= 0, n >= 1;",
+                 "  let s = ca + cb;",
+                 "  assert(n * s == n * ca + n * cb) by (nonlinear_arith) requires s == ca + cb;",
+                 "  assert(3 <= s <= 5) by (nonlinear_arith) requires n * s == h as int + 4 * n - (i + j), 0 <= i + j <= 2 * n - 2, 0 <= h as int <= 2 * n - 2, n >= 1;",
+                 "  let k = 5 - s; let idv = if s == 5 { (ca - 1) % 4 } else { ca % 4 }; let c = if k == 1 { 0int } else { 1int };",
+                 "  assert(ca >= 1 || s != 5);",
+                 "  let m = 2 * idv + c - ca + cb - 4;",
+                 "  assert(m == 0 || (m == -8 && k == 1 && ca == 4));",
+                 "  let x = n * (2 * idv + c) + (i - j);",
+                 "  assert(i - j == (l as int - 4 * n) - (n * ca - n * cb));",
+                 "  assert(x == n * m + l as int) by (nonlinear_arith) requires x == n * (2 * idv + c) + (i - j), i - j == (l as int - 4 * n) - (n * ca - n * cb), m == 2 * idv + c - ca + cb - 4;",
+                 "  assert(n * m == 0 || n * m == -8 * n) by (nonlinear_arith) requires m == 0 || m == -8;",
+                 "  let xx = if x < 0 { x + 8 * n } else { x };",
+                 "  assert(xx == l as int);",
+                 "  assert(n * (k + 2) - (i + j + 2) == n + rp) by (nonlinear_arith) requires k == 5 - s, n * s == h as int + 4 * n - (i + j), h as int == 2 * n - 2 - rp;",
+                 "  assert(ring_first(n, n + rp) == tri4(n) + rp * (4 * n));",
+                 "  assert forall|dd: int| 0 <= dd < 12 && dd / 4 == k && dd % 4 == idv implies ring_index(n, dd, i, j) == hash0 by {",
+                 "    assert(ring_of(n, dd, i, j) == n + rp);",
+                 "    assert(rank_in_ring(n, dd, i, j) == xx / 2);",
+                 "  }",
+                 "}"]),
+         ]),
     dict(name="Layer::to_ring", file="src/nested/mod.rs", sig="pub fn to_ring(&self, hash: u64) -> u64 {", ret="r", drop_pub=True, wrap=("impl Layer {", "}"),
          contract=["requires wf(*self), hash < self.n_hash,",
                    "ensures ({ let p = decode_spec(*self, hash); let n = pow2(self.depth as nat) as int;",
